@@ -588,6 +588,7 @@ func ruleC08NotFound(p *Program, r *Run) {
 
 type splitPairClient struct {
 	BaseClient
+	InlinePredicates
 	p    *Program
 	fn   string
 	open map[string]ast.Node // sub-parser key -> split call
@@ -888,6 +889,7 @@ func ruleC08ErrorToken(p *Program, r *Run) {
 // is known.
 type errTokClient struct {
 	BaseClient
+	InlinePredicates
 	p       *Program
 	errKind string
 	seen    int
